@@ -24,9 +24,9 @@ PROPS = {
     "C07": dict(props="Props/C07.v", runner="conc",
                 families=["mixed", "nofast", "guards"], scenarios=["s01", "s03", "s07"]),
     "C08": dict(props="Props/C08.v", runner="conc",
-                families=["guards", "nofast", "helping", "mixed"], scenarios=["s01", "s03", "s04", "s05"], freeze=True),
+                families=["guards", "nofast", "helping", "mixed"], scenarios=["s01", "s03", "s04", "s05"], freeze=True, chase=[("s21", 0, 1)]),
     "C09": dict(props="Props/C09.v", runner="conc",
-                families=["helping", "nofast", "cas", "guards", "churn"], scenarios=["s03", "s05", "s08", "s09", "s10"], freeze=True),
+                families=["helping", "nofast", "cas", "guards", "churn"], scenarios=["s03", "s05", "s08", "s09", "s10", "s22"], freeze=True),
     "C10": dict(props="Props/C10.v", runner="conc",
                 families=["guards", "mixed", "churn", "multi"], scenarios=["s04", "s07", "s10", "s13", "s14"]),
     "C11": dict(props="Props/C11.v", runner="conc",
